@@ -56,6 +56,11 @@ def delta_of(b, bb, st, field):
 
 
 def run(ck, fb):
+    _run0(ck, fb)
+    r11f(ck, fb)
+
+
+def _run0(ck, fb):
     ck.explanation = (
         'Decides co-update clauses that the counter/index/reverse-map invariants need on every path: (a) service_map insert/remove is '
         'paired with namespace_index insert_service/remove_service; (b) a service is dropped only under instance_size <= 0; (c) the '
@@ -335,3 +340,12 @@ def r11e(ck, fb):
                'bookkeeping follows a value that is not the one finally stored' % (nm, f, up.blocks[rb]['t'].get('ln'), f, up.blocks[wb]['t'].get('ln')))
     if not bad:
         ck.ok('R11e', 'update_instance:decisions-use-final-values', up.where(), '%d decision assignments examined' % n)
+
+
+def r11f(ck, fb):
+    ck.rule('R11f', 'every service is listed exactly once across the pages of a listing without a namespace filter: the same paging rule as R09j for the '
+                    'sibling index (ServiceIndex::query_service_page takes the remaining offset, NamespaceIndex::query_service_page reduces it by '
+                    'each namespace\'s total)')
+    from rules.c09 import paging_offset_rule
+    paging_offset_rule(ck, fb, 'R11f', 'rnacos::naming::service_index::NamespaceIndex::query_service_page',
+                       r'service_index::ServiceIndex::query_service_page$', r'ServiceQueryParam', 'service-listing')
